@@ -1388,6 +1388,13 @@ def gen_case(rng, profile='c10', max_ops=None):
             if not up and rng.random() < 0.7:
                 sstate[i]['up'] = True
                 ops.append(['PresenceUp', i])
+            if srv['cap'][2] == 204800 and rng.random() < 0.6:
+                # ... and, once the master has seen the large value, the same record one unit off
+                srv2 = dict(srv, cap=[srv['cap'][0], srv['cap'][1], 204800 + rng.choice([-1, 1])])
+                ops.append(['Tick', rng.choice([1, 5])])
+                ops.append(['MasterCycle'])
+                sstate[i] = dict(srv2, up=sstate[i]['up'], exists=True)
+                ops.append(['ServerRecord', srv2])
         elif k == 'ServerDeleteApi' and len(existing) > 1:
             i = rng.choice(existing)
             now = rng.random() < 0.55
